@@ -245,13 +245,13 @@ def run(ctx):
                 "and rotating chain completion, a failpoint perturbing every clock reading on grids 300 / 501); per chain exact equality of (iter, alpha, log_p_one bits, tree key, "
                 "labels); plus in-process pairs of the same seeded chain under different ambient random state (numpy global "
                 "RandomState, random module) with cold caches, over small configurations that visit rare branches; "
-                "distinct = (configuration, environment)")
+                "run seeds include 0 and 2^32+5; distinct = (configuration, environment)")
     ctx.assumptions = ["`time` entries are excluded", "same machine, same library versions for all runs of a comparison"]
     cfgs = [
         {"id": 0, "proposal": "semi-adapted", "outlier_prob": 0.1, "clustered": False, "chains": 2, "n_mut": 5, "iters": 6,
          "subtree": 0.3, "run_seed": 11 + ctx.seed},
         {"id": 1, "proposal": "fully-adapted", "outlier_prob": 0.0, "clustered": True, "chains": 1, "n_mut": 7, "iters": 6,
-         "subtree": 0.0, "run_seed": 5 + ctx.seed},
+         "subtree": 0.0, "run_seed": 0},  # the smallest seed the command line accepts
         {"id": 2, "proposal": "bootstrap", "outlier_prob": 0.2, "clustered": True, "chains": 4, "n_mut": 6, "iters": 5,
          "subtree": 0.5, "run_seed": 123 + ctx.seed},
     ]
@@ -284,6 +284,11 @@ def run(ctx):
         stress.append({"id": 120 + j, "proposal": ["semi-adapted", "fully-adapted"][j % 2], "outlier_prob": 0.0, "clustered": False,
                        "chains": 1 + j % 2, "n_mut": nm, "iters": 5, "subtree": 0.2, "run_seed": 41 + j + ctx.seed,
                        "stress": "clock", "grid": grid, "particles": 4, "branching": j % 2 == 0})
+    # boundary values of the seed itself
+    stress.append({"id": 130, "proposal": "semi-adapted", "outlier_prob": 0.1, "clustered": False, "chains": 2, "n_mut": 4,
+                   "iters": 4, "subtree": 0.3, "run_seed": 0, "stress": "seed"})
+    stress.append({"id": 131, "proposal": "bootstrap", "outlier_prob": 0.0, "clustered": False, "chains": 1, "n_mut": 4,
+                   "iters": 4, "subtree": 0.0, "run_seed": 2 ** 32 + 5 + ctx.seed, "stress": "seed"})
     cfgs = cfgs + stress
     tasks = []
     for cfg in cfgs:
@@ -291,6 +296,9 @@ def run(ctx):
         if cfg.get("stress") == "cores":
             envs = [{"name": "all cores", "hashseed": 0}, {"name": "one core", "hashseed": 0, "one_core": True},
                     {"name": "two cores", "hashseed": 0, "cores": 2}]
+        elif cfg.get("stress") == "seed":
+            envs = [{"name": "hashseed 0", "hashseed": 0}, {"name": "hashseed 0 again", "hashseed": 0},
+                    {"name": "hashseed 1", "hashseed": 1}]
         elif cfg.get("stress") == "clock":
             envs = [{"name": "real clocks", "hashseed": 0}] + [
                 {"name": "clock drift %d" % k, "hashseed": 0, "clock_skew": k} for k in (1, 2, 3, 4, 5)]
